@@ -184,3 +184,13 @@ func Ready(msgs []pgwire.BMsg) bool {
 func DefaultPairs(user string) [][2]string {
 	return [][2]string{{"user", user}, {"database", "db"}}
 }
+
+// Conn returns the underlying in-memory connection.
+func (s *Sess) Conn() *memnet.Conn { return s.C }
+
+// Session is what Sess (plaintext) and TLSSess have in common.
+type Session interface {
+	Send([]byte) Step
+	Startup(pairs [][2]string, pass *string) Step
+	Conn() *memnet.Conn
+}
